@@ -142,7 +142,6 @@ static inline int enabled(int i)
 	case ST_RUN: return 1;
 	case ST_WANT_LOCK: return ((struct smutex *)t->obj)->owner < 0;
 	case ST_WAIT_JOIN: return G.t[t->join_target].state == ST_EXITED;
-	case ST_WAIT_ONCE: return *(volatile int *)t->obj == 2;
 	default: return 0;
 	}
 }
@@ -249,7 +248,7 @@ static int pick(int me)
 
 	struct sthread *t = &G.t[next];
 	if (t->state == ST_WANT_LOCK) { ((struct smutex *)t->obj)->owner = next; t->state = ST_RUN; }
-	else if (t->state == ST_WAIT_JOIN || t->state == ST_WAIT_ONCE) t->state = ST_RUN;
+	else if (t->state == ST_WAIT_JOIN) t->state = ST_RUN;
 	note_abs_state();
 	return next;
 }
@@ -509,27 +508,30 @@ int sim_pthread_detach(pthread_t th)
 	return 0;
 }
 
-/* pthread_once_t is an int; 0 = not run, 2 = done (glibc's own value for done, so the flag stays valid for
- * the real pthread_once after the run) */
+/* pthread_once: the flag itself belongs to the real implementation (glibc's, or ThreadSanitizer's interceptor, which
+ * encodes "done" differently), so the real pthread_once is what runs the routine - but inside an emulated mutex kept
+ * per once-object: a second caller waits on something the scheduler owns, never in the kernel while the first one is
+ * parked inside the routine.  The table outlives the runs (once-flags are process-global); its mutexes are reset by
+ * sim_sched_begin. */
+static struct { void *once; struct smutex m; } once_tab[64];
+static int n_once;
 int sim_pthread_once(pthread_once_t *once, void (*fn)(void))
 {
 	if (!G.active) return pthread_once(once, fn);
-	volatile int *o = (volatile int *)once;
-	schedule();
-	if (*o == 2) { ts_acq((void *)once); return 0; }
-	if (*o == 0) {
-		*o = 1;
-		fn();
-		ts_rel((void *)once);
-		*o = 2;
-		schedule();
-		return 0;
+	int e = -1;
+	for (int i = 0; i < n_once; i++) if (once_tab[i].once == (void *)once) e = i;
+	if (e < 0) {
+		if (n_once >= 64) fatal("TOO-MANY-ONCE-OBJECTS");
+		e = n_once++;
+		once_tab[e].once = (void *)once; once_tab[e].m.magic = MMAGIC; once_tab[e].m.owner = -1;
 	}
 	struct sthread *t = &G.t[tls_tid];
-	t->state = ST_WAIT_ONCE; t->obj = (void *)once;
+	t->state = ST_WANT_LOCK; t->obj = &once_tab[e].m;
 	schedule();
-	ts_acq((void *)once);
-	return 0;
+	int r = pthread_once(once, fn);
+	once_tab[e].m.owner = -1;
+	schedule();
+	return r;
 }
 
 static int prev_unjoined;
@@ -562,6 +564,7 @@ void sim_sched_begin(const struct sim_sched_cfg *cfg)
 		for (int i = 0; i < G.n_change; i++)
 			G.change_pt[i] = 1 + prng_below(&G.rng, span);
 	}
+	for (int i = 0; i < n_once; i++) { once_tab[i].m.magic = MMAGIC; once_tab[i].m.owner = -1; }
 	G.active = 1;
 }
 
